@@ -114,6 +114,10 @@ func runC11(e *Env) {
 				for _, a := range accs {
 					held := la.At(a.Instr)
 					_, ok := held[a.Base+".mutex"]
+					for base := a.Base; !ok && strings.Contains(base, "."); {
+						base = base[:strings.LastIndex(base, ".")] // the state may be grouped in a sub-struct next to the mutex
+						_, ok = held[base+".mutex"]
+					}
 					e.R.Check(ok, "C11.R3", fmt.Sprintf("%s:private.%s", core.FnName(f), fld), e.pos(a.Instr), "accessed with the reader's mutex held "+held.String(), "reader state accessed without its mutex; held="+held.String())
 				}
 			}
